@@ -14,7 +14,8 @@ The environment (DESIGN §6 C14, "Environment, fixed precisely"):
   `send`, `close` at any time and repeatedly; **no code entry or helper call after `close()`**;
 * network: a connection can come up whenever none exists and the service was not stopped — in one step
   (`wsOpen`) or in two (`tcpUp`: the TCP connection exists and the WebSocket negotiation is pending, then
-  `wsOpen` or `wsFail`); it can drop at any time; the very first attempt can fail; after `stopService()`
+  `wsOpen` or `wsFail`); it can drop at any time, abruptly or after the server began the WebSocket closing
+  handshake (`wsClosing`: nothing more is read and autobahn refuses to send until the loss is reported); the very first attempt can fail; after `stopService()`
   nothing more is read, and a connection that was still negotiating then goes away without ever opening;
 * server: `welcome` (with or without `error`) is the first frame of every connection; `claimed`,
   `released`, `closed`, `allocated` answer the matching command of *this* connection in FIFO
@@ -90,7 +91,7 @@ structure Mon where
 instance : Hashable Ctl where
   hash c := mixHash (hash (c.b, c.n, c.m, c.t, c.c, c.a, c.l))
     (mixHash (hash (c.i, c.k, c.sk, c.o, c.r, c.s))
-      (mixHash (hash (c.wsOpen, c.halfOpen, c.everConnected, c.stopping, c.stopPending, c.didStartCode, c.helper, c.pakeProcessed))
+      (mixHash (hash (c.wsOpen, c.halfOpen, c.wsClosing, c.everConnected, c.stopping, c.stopPending, c.didStartCode, c.helper, c.pakeProcessed))
         (mixHash (hash (c.versionProcessed, c.orderQ, c.sendQ, c.haveNameplate, c.haveMailbox, c.mood))
           (hash (c.rKey, c.sKey, c.spStarted, c.stashedPake, c.result)))))
 
@@ -104,7 +105,7 @@ structure Sys where
 def enabled (s : Sys) (e : Event) : Bool :=
   let c := s.ctl
   let v := s.env
-  let reading := c.wsOpen && !c.stopPending          -- frames are being delivered
+  let reading := c.wsOpen && !c.stopPending && !c.wsClosing   -- frames are being delivered
   let frames := reading && v.welcomed                -- … and the welcome came first
   match e with
   | .setCode _ | .allocateCode | .inputCode => !v.appClosed
@@ -112,6 +113,7 @@ def enabled (s : Sys) (e : Event) : Bool :=
     c.helper && !v.appClosed
   | .send | .close => true
   | .tcpUp => !c.wsOpen && !c.halfOpen && !v.svcStopped
+  | .wsClosing => c.wsOpen && !c.wsClosing && !c.stopPending   -- the server starts the closing handshake
   | .wsOpen => !c.wsOpen && !v.svcStopped
   | .wsClose => c.wsOpen && !c.stopPending
   | .wsFail => !c.wsOpen && !v.svcStopped          -- a connection attempt whose WebSocket negotiation fails
@@ -277,7 +279,7 @@ def sysStep (s : Sys) (e : Event) : Sys × Outcome :=
 def allEvents : List Event :=
   [.setCode true, .setCode false, .allocateCode, .inputCode,
    .hRefresh, .hNameplateCompletions, .hChooseNameplate true, .hChooseNameplate false, .hWordCompletions, .hChooseWords,
-   .send, .close, .tcpUp, .wsOpen, .wsClose, .wsFail, .failInitial, .svcStopped,
+   .send, .close, .tcpUp, .wsOpen, .wsClosing, .wsClose, .wsFail, .failInitial, .svcStopped,
    .welcome false, .welcome true, .claimed, .released, .closedResp, .allocated, .nameplates, .serverError,
    .message .ours .pake true true .good, .message .ours .version true true .good, .message .ours .num true true .good,
    .message .theirs .pake true true .good, .message .theirs .pake true false .good,
